@@ -13,6 +13,7 @@ RULES = {
     "C09.R4": "packing typestate: QBitsTensor.__init__ stores a packed payload on every path; create() forwards all its arguments in order",
     "C09.R6": "lifecycle ops keep the tensor: the detach and _to_copy handlers (run by Parameter(), freeze and Module.to on a frozen weight) rebuild with the source's own qtype, axis, group size, size and stride, and pass payload / scale / zero-point through the op only",
     "C09.R7": "compact storage: the packer every frozen low-bit weight goes through stores ceil(rows x bits / 8) payload rows for every row count (rules C04.R2/R3), and the 8-bit detach/move handlers that Parameter(), freeze and Module.to run keep payload and scale through the op only (rules of C05.R5)",
+    "C09.R9": "a calibrated model can be copied: every value stored into the input_scale / output_scale buffers is detached from the graph it was computed in (a non-leaf tensor that requires grad makes copy.deepcopy of the model raise, and keeps the graph of the calibration batch alive)",
     "C09.R8": "copies keep behaving: a qtype is a value object (a dataclass that deepcopy duplicates), so qtypes are compared with == / in, never with `is` (identity holds for the library's singletons only until a frozen model is copied)",
     "C09.R5": "lifecycle ops: every class that can be a frozen weight has handlers for detach (Parameter), _to_copy (.to) and clone (deepcopy)",
 }
@@ -75,6 +76,7 @@ def run(chk):
     packing(chk)
     lifecycle(chk)
     qtype_identity(chk)
+    detached_scales(chk)
     from .c06 import moves_rule
     moves_rule(chk, r2="C09.R6", r4="C09.R6")
     from ..report import AliasedCheck
@@ -228,3 +230,40 @@ def qtype_identity(chk):
                             chk.bad("C09.R8", f"{mi.rel}:{nd.lineno}", "", f"qtype compared by identity: {U(nd)[:60]}", f"`{U(nd)[:80]}` compares qtypes by identity: copy.deepcopy of a (frozen) model duplicates the qtype objects, so the test is false in the copy although the qtypes are equal",
                                     "a frozen model with quantized activations, deep-copied, fed an already quantized input: the copy re-quantizes it with its own input scale and its outputs differ from the original's")
     chk.ok("C09.R8", "package", f"{n} comparisons scanned: no qtype is compared with `is`")
+
+
+def detached_scales(chk):
+    """C09.R9: stores into the activation-scale buffers are detached (x.detach(), or evaluated under torch.no_grad())."""
+    repo = chk.repo
+    names = ("input_scale", "output_scale")
+    n = 0
+    for mi in repo.modules.values():
+        if not mi.rel.startswith("optimum/"):
+            continue
+        for fn in [x for x in ast.walk(mi.tree) if isinstance(x, ast.FunctionDef)]:
+            if not any(isinstance(x, ast.Attribute) and x.attr in names and isinstance(x.ctx, ast.Store) for x in ast.walk(fn)):
+                continue
+            decorated = any(U(d).startswith("torch.no_grad") for d in fn.decorator_list)
+            seen = set()
+            for p in paths_of(fn):
+                nograd = decorated
+                for ef in p.effects:
+                    if ef[0] == "with" and U(ef[1]).startswith("torch.no_grad"):
+                        nograd = True  # conservative the other way round would need block ends: the path engine records `with` entries only
+                    if ef[0] == "store" and ef[2] in names and (ef[4], U(ef[3])) not in seen:
+                        seen.add((ef[4], U(ef[3])))
+                        n += 1
+                        v = ef[3]
+                        det = False
+                        e = v
+                        while isinstance(e, ast.Call) and isinstance(e.func, ast.Attribute) and not e.args and not e.keywords and e.func.attr in ("detach", "clone", "contiguous"):
+                            if e.func.attr == "detach":
+                                det = True
+                            e = e.func.value
+                        if isinstance(v, ast.Attribute) and v.attr == "data":
+                            det = True
+                        # a python number / a factory call carries no graph
+                        factory = isinstance(v, ast.Call) and U(v.func) in ("torch.ones", "torch.zeros", "torch.tensor", "torch.full", "torch.empty")
+                        chk.require("C09.R9", f"{mi.rel}:{ef[4]}", det or nograd or factory, f"{fn.name}: `{U(ef[1])}.{ef[2]} = {U(v)[:70]}` carries no autograd history (detached={det}, no_grad={nograd})", fn.name, f"{ef[2]} stored with its graph",
+                                    "quantize(model, activations=qint8); with Calibration(): model(x) (no torch.no_grad()); copy.deepcopy(model) raises `Only Tensors created explicitly by the user support the deepcopy protocol`")
+    chk.floor("C09.R9", n, 3, "stores into the activation-scale buffers")
